@@ -45,7 +45,7 @@ ASSUMPTIONS = [
     'dialogue harness: the checking thread waits (bounded wall clock, expiry = inconclusive) until its own select() sees the kernel state the peer action '
     'produces, then ticks a bounded number of times; verdicts are on the resulting streams only',
 ]
-REQUIRED = ['descriptor_registered_by_number', 'intfd_control_events_seen', 'change_inside_select_call', 'inselect_control_event_seen', 'iter_select', 'iter_poll', 'iter_epoll', 'reader_ready_emitted', 'writer_ready_emitted', 'registered_not_ready_silent',
+REQUIRED = ['descriptor_registered_by_number', 'descriptor_number_zero_registered', 'intfd_control_events_seen', 'change_inside_select_call', 'inselect_control_event_seen', 'iter_select', 'iter_poll', 'iter_epoll', 'reader_ready_emitted', 'writer_ready_emitted', 'registered_not_ready_silent',
             'ready_not_registered_silent', 'remove_one_role_other_stays', 'readd_after_discard', 'owner_changed_after_discard',
             'send_buffer_full_not_writable', 'writable_again_after_drain', 'peer_closed_hup', 'disconnect_instead_of_write', 'half_close_read',
             'peer_reset', 'discard_then_close', 'close_then_discard', 'close_without_discard', 'fd_number_reused',
@@ -1358,8 +1358,8 @@ def intfd_cases(b):
     from circuits.core import pollers as P
     from circuits.core.events import generate_events
 
-    for pname in ('Select', 'Poll', 'EPoll'):
-        for role in ('reader', 'writer'):
+    for pname, role, zero in [(p_, r_, z_) for p_ in ('Select', 'Poll', 'EPoll') for r_ in ('reader', 'writer') for z_ in (False, True)]:
+        if True:
             seen, excs = [], []
 
             class Obs(BaseComponent):
@@ -1379,7 +1379,14 @@ def intfd_cases(b):
                 root.flush()
             a, a_peer = _socket.socketpair()
             c, c_peer = _socket.socketpair()
-            number = os.dup(a.fileno())      # the descriptor registered by number
+            saved0 = None
+            if zero:
+                # descriptor number 0 (a daemon that closed stdin, a program watching its own stdin): a legal number like any other
+                saved0 = os.dup(0)
+                os.dup2(a.fileno(), 0)
+                number = 0
+            else:
+                number = os.dup(a.fileno())      # the descriptor registered by number
             a.close()
             other, other_peer = _socket.socketpair()   # (created now, so that neither end can get `number` once that is free)
 
@@ -1398,12 +1405,20 @@ def intfd_cases(b):
             poller.addReader(sz, c)
             iterate()
             control = {(n, o) for n, o, _ in seen}
-            case = {'family': 'intfd', 'poller': pname, 'role': role}
+            case = {'family': 'intfd', 'poller': pname, 'role': role, 'number_zero': zero}
             b.case(case, nontrivial=True)
             b.reached('descriptor_registered_by_number')
+            if zero:
+                b.reached('descriptor_number_zero_registered')
             want = ('_read' if role == 'reader' else '_write', number)
             if want in control and ('_read', c) in control:
                 b.reached('intfd_control_events_seen')
+                b.ok('COMPLETE_READ' if role == 'reader' else 'COMPLETE_WRITE')
+            else:
+                # registered and ready, but not reported
+                b.fail(case, 'COMPLETE_READ' if role == 'reader' else 'COMPLETE_WRITE',
+                       {'poller': pname, 'note': 'a live descriptor registered by number and ready was not reported', 'number': number,
+                        'events_seen': sorted((n, repr(o)) for n, o in control)}, dedup='intfd-live')
             del seen[:], excs[:]
             os.close(number)                 # closed at the OS level, no discard()
             served = 0
@@ -1435,9 +1450,12 @@ def intfd_cases(b):
             else:
                 b.ok('NO_EVENT_FOR_CLOSED')
                 b.ok('COMPLETE_READ')
-            for fd in (number,):
+            if saved0 is not None:
+                os.dup2(saved0, 0)      # stdin back in its place
+                os.close(saved0)
+            else:
                 try:
-                    os.close(fd)
+                    os.close(number)
                 except OSError:
                     pass
             for so in (a_peer, c, c_peer, other, other_peer):
